@@ -21,21 +21,27 @@ pub fn fixtures_dir() -> String {
 }
 
 thread_local! {
-    static ACCEPTORS: RefCell<Vec<Option<TlsAcceptor>>> = RefCell::new(vec![None, None, None, None, None, None]);
+    static ACCEPTORS: RefCell<Vec<Option<TlsAcceptor>>> = RefCell::new(vec![None, None, None, None, None, None, None, None, None, None, None, None]);
     static CERT_DER: RefCell<Vec<Option<Vec<u8>>>> = RefCell::new(vec![None, None, None, None, None, None]);
 }
 
-fn acceptor(i: usize) -> TlsAcceptor {
+fn acceptor(i: usize, tls12: bool) -> TlsAcceptor {
+    let tls12 = tls12 && FIXTURES[i].starts_with("rsa");
+    let slot = if tls12 { i + 6 } else { i };
     ACCEPTORS.with(|a| {
         let mut a = a.borrow_mut();
-        if a[i].is_none() {
+        if a[slot].is_none() {
             let dir = fixtures_dir();
             let crt = std::fs::read(format!("{}/{}.crt", dir, FIXTURES[i])).expect("fixture crt");
             let key = std::fs::read(format!("{}/{}.key", dir, FIXTURES[i])).expect("fixture key");
             let id = Identity::from_pkcs8(&crt, &key).expect("identity");
-            a[i] = Some(TlsAcceptor::new(id).expect("acceptor"));
+            let mut b = TlsAcceptor::builder(id);
+            if tls12 {
+                b.max_protocol_version(Some(native_tls::Protocol::Tlsv12));
+            }
+            a[slot] = Some(b.build().expect("acceptor"));
         }
-        a[i].clone().unwrap()
+        a[slot].clone().unwrap()
     })
 }
 
@@ -452,7 +458,8 @@ impl Server {
     fn start_tls(&mut self) {
         let old = std::mem::replace(&mut self.tls, Tls::Taken);
         if let Tls::Plain(end) = old {
-            match acceptor(self.p.cert).accept(end) {
+            if self.p.tls12 { self.ctx.borrow_mut().probe("tls12_server"); }
+            match acceptor(self.p.cert, self.p.tls12).accept(end) {
                 Ok(s) => {
                     self.tls = Tls::Up(s);
                     self.tls_established = true;
